@@ -57,6 +57,10 @@ type Case struct {
 	// Ops > 1: every request of the script and of the burst carries this many operations
 	// (a client with thousands of operations outstanding when the stream breaks)
 	Ops int `json:"ops,omitempty"`
+	// Linger (reset-reconnect) > 0: after the fresh exchange converged the new session is left
+	// alone for this many milliseconds of real time; then one more exchange must converge and
+	// Done must still be silent (nothing armed during the teardown may hit the new stream later)
+	Linger int `json:"linger,omitempty"`
 }
 
 func setup() {
@@ -513,6 +517,33 @@ func runCase(c Case) *ev.Verdict {
 		if len(res) != wantRes {
 			fail("reconnect-stale-results", "after Reset+Connect and one exchange Results() has %d entries, want %d: %v", len(res), wantRes, res)
 		}
+		if c.Linger > 0 && len(v.Findings) == 0 {
+			time.Sleep(time.Duration(c.Linger) * time.Millisecond)
+			v.Class(fmt.Sprintf("new-session-left-alone-for-%dms", c.Linger))
+			select {
+			case <-cl.Done():
+				stt, _ := cl.Status()
+				fail("new-session-ended-by-itself", "%d ms after Reset+Connect the new session signalled Done although the server did nothing: send %v recv %v", c.Linger, stt.SendErrs, stt.ReadErrs)
+				return v
+			default:
+			}
+			if !within(func() { cl.Q(opReq(1001)) }) {
+				fail("q-blocks", "Q %d ms after Reset+Connect did not return", c.Linger)
+				return v
+			}
+			if !st2.WaitSent(4) {
+				fail("reconnect-not-sending", "%d ms after Reset+Connect a further request did not reach the server", c.Linger)
+				return v
+			}
+			respond(st2, 1001, c.FIB)
+			actx, acancel := context.WithTimeout(context.Background(), cstub.Watchdog)
+			aerr := cl.AwaitConverged(actx)
+			acancel()
+			if aerr != nil {
+				fail("reconnect-not-converging", "%d ms after Reset+Connect a further exchange does not converge: %v", c.Linger, aerr)
+				return v
+			}
+		}
 		fallthrough
 	default:
 		var cerr error
@@ -664,6 +695,23 @@ func TestCampaign(t *testing.T) {
 			v := runCase(c)
 			col.Check(rt, ev.JSON(c), v)
 		})
+	})
+	t.Run("linger", func(t *testing.T) {
+		// one case per shard: after Reset+Connect the new session is left alone for seconds of
+		// real time (timers armed during the teardown have fired by then) and must still work
+		ls := []int{1100, 2100, 5100, 6100, 10100, 11000}
+		if ev.Thorough() {
+			ls = append(ls, 15100, 30100, 31000, 61000)
+		}
+		sk, _ := ev.Shard()
+		l := ls[(sk+int(ev.Seed()))%len(ls)]
+		for _, side := range []string{"recv"} {
+			c := Case{FIB: sk%2 == 0, NReq: 2, Side: side, At: 3, Class: classes[1+sk%3], Burst: 1, Epilogue: "reset-reconnect", Linger: l}
+			v := runCase(c)
+			if fresh := col.Record(ev.JSON(c), v); len(fresh) > 0 {
+				t.Errorf("%s: %v", ev.JSON(c), fresh)
+			}
+		}
 	})
 	t.Run("many-outstanding", func(t *testing.T) {
 		// requests of K operations each (K around powers of two up to 8193): thousands of
